@@ -25,6 +25,12 @@ from vf.monitors import c12_mon
 PID = 'C12'
 QUICK = {'projects': 14, 'per_project': 5, 'budget_s': 100.0}
 THOROUGH = {'projects': 250, 'per_project': 6, 'budget_s': 1080.0}
+# --slice sweeps (projects of profile 'slices', on top of the ones above): (number of tests, groups, sample)
+#   groups: n as a number / 'all' (= number of selected tests) / 'whole' (no suite selection, all tests) / 'rand' (10..selected) / 'over' (above it)
+#   sample: 0 = every i of 1..n, k = only k of them when n > k (partial group: disjointness and acceptance only)
+QUICK_SWEEPS = [((12, 25), [10, 'all'], 0), ((26, 40), ['rand', 'over'], 0), ((100, 125), ['whole', 'rand'], 14)]
+THOROUGH_SWEEPS = ([((10, 40), [10, 'all', 'over'], 0), ((20, 60), ['rand', 'rand', 'over'], 0),
+                    ((100, 130), ['whole'], 0), ((100, 130), ['whole', 'rand', 11], 20)] * 3)
 
 
 # ---- one invocation ------------------------------------------------------------------------------
@@ -106,6 +112,8 @@ def run_invocation(proj: dict, inv: dict, src: str, bdir: str, logp: str, shake:
     if badlines:
         res['inconclusive'].append('probe-log-unparsable-line')
     res['wall'] = round(r.wall, 2)
+    res['rc'] = r.rc
+    res['has_testlog'] = testlog is not None
     if res['violations']:
         res['brief'] = r.brief()
         res['events'] = evs[:400]
@@ -133,22 +141,33 @@ def run_project(job: dict) -> dict:
                 out['skipped'] += 1
                 continue
             sel = O.selected(proj, inv)
-            if inv['slice'] and inv['slice'][1] > len(sel):
+            if inv['slice'] and inv['slice'][1] > len(sel) and not inv.get('oversize'):
                 out['skipped'] += 1       # meson rejects more slices than tests; not part of the property
-                continue
+                continue                  # (sweep groups marked 'oversize' run them: one answer for all i is demanded)
             res = run_invocation(proj, inv, src, bdir, os.path.join(src, f'log{k}.jsonl'), job['shake'],
                                  job['seed'] * 1000 + k)
             res['inv'] = inv
             out['runs'].append(res)
             if inv['group'] and not res.get('watchdog'):
-                groups.setdefault(inv['group'], []).append((inv, [s[0] for s in res['started']]))
+                refused = res.get('rc') != 0 and not res['started'] and not res.get('has_testlog')
+                groups.setdefault(inv['group'], []).append((inv, [s[0] for s in res['started']], refused))
+        planned: T.Dict[str, int] = {}
+        for inv in invs:
+            if inv['group']:
+                planned[inv['group']] = planned.get(inv['group'], 0) + 1
         out['slice_groups'] = []
         for g, members in groups.items():
             n = members[0][0]['slice'][1]
-            if len(members) == n:
-                v = O.check_slice_group(proj, [m[0] for m in members], [m[1] for m in members])
-                out['slice_groups'].append({'n': n, 'violations': v, 'inv': members[0][0],
+            partial = bool(members[0][0].get('partial'))
+            if len(members) == (planned[g] if partial else n):
+                v = O.check_slice_group(proj, [m[0] for m in members], [m[1] for m in members], partial=partial,
+                                        rejected=[m[2] for m in members])
+                out['slice_groups'].append({'n': n, 'violations': v, 'inv': members[0][0], 'partial': partial,
+                                            'oversize': n > len(O.selected(proj, members[0][0])),
+                                            'refused': sum(1 for m in members if m[2]),
                                             'sizes': [len(set(m[1])) for m in members]})
+            else:
+                out['skipped_groups'] = out.get('skipped_groups', 0) + 1
     finally:
         shutil.rmtree(src, ignore_errors=True)
     return out
@@ -197,7 +216,17 @@ def build_jobs(chk: common.Check, cfg: dict, root: str) -> T.List[dict]:
         invs = d + G.gen_invocations(rng, proj, max(0, cfg['per_project'] - len(d)))
         jobs.append({'proj': proj, 'invs': invs, 'root': root, 'idx': idx, 'deadline': deadline,
                      'shake': chk.tier == 'thorough' and idx % 2 == 1, 'seed': chk.seed})
-    return jobs
+    # --slice i/n for n of two and three digits (n up to, equal to and above the number of selected tests), every i
+    sweeps = []
+    for k, ((lo, hi), ns, sample) in enumerate(QUICK_SWEEPS if chk.tier == 'quick' else THOROUGH_SWEEPS):
+        idx = cfg['projects'] + k
+        rng = random.Random(f'C12:sweep:{chk.seed}:{chk.tier}:{k}')
+        proj = G.gen_project(rng, G.SLICE_SWEEP_PROFILE, idx, count=rng.randint(lo, hi))
+        sweeps.append({'proj': proj, 'invs': G.gen_slice_sweep(rng, proj, ns, sample), 'root': root, 'idx': idx,
+                       'deadline': deadline, 'shake': False, 'seed': chk.seed})
+    # the longest sweeps first, then the regular projects (workers take jobs in order)
+    sweeps.sort(key=lambda j: -len(j['invs']))
+    return sweeps + jobs
 
 
 def aggregate(chk: common.Check, results: T.Sequence[dict]) -> dict:
@@ -245,8 +274,18 @@ def aggregate(chk: common.Check, results: T.Sequence[dict]) -> dict:
                 chk.violation(mech, {'detail': det, 'project': pr['proj'] if 'proj' in pr else None,
                                      'inv': inv, 'idx': pr['idx'], 'shake': pr.get('shake'), 'brief': res.get('brief'),
                                      'events': res.get('events'), 'records': res.get('records')})
+        chk.count('skipped:slice_group_incomplete_deadline', pr.get('skipped_groups', 0))
         for g in pr.get('slice_groups', []):
-            chk.count('monitor:slice_partition')
+            if g.get('oversize'):
+                chk.count('monitor:slice_oversized_n_one_answer')
+                chk.count('cov:slice_oversized_n_' + ('refused_for_all_i' if g['refused'] == len(g['sizes'])
+                                                      else 'accepted_for_all_i' if not g['refused'] else 'mixed'))
+            elif g.get('partial'):
+                chk.count('monitor:slice_disjoint_partial_group')
+            else:
+                chk.count('monitor:slice_partition')
+                chk.count('monitor:slice_partition_n_ge_10', 1 if g['n'] >= 10 else 0)
+            chk.count('cov:slice_n_digits_%d' % len(str(g['n'])))
             chk.count('cov:slice_n_%d' % g['n'])
             for mech, det in g['violations']:
                 chk.violation(mech, {'detail': det, 'project': pr.get('proj'), 'inv': g['inv'], 'idx': pr['idx'],
@@ -298,6 +337,10 @@ def main() -> int:
     for m, minimum in (('monitor:probe_starts', 50), ('monitor:overlap_sweep', 10), ('monitor:serial_intervals', 10),
                        ('monitor:classification', 50), ('monitor:summary_compare', 10), ('monitor:exit_status', 10),
                        ('monitor:exactly_once', 50), ('monitor:pids_gone', 50), ('monitor:slice_partition', 1),
+                       ('monitor:slice_partition_n_ge_10', 2), ('monitor:slice_accepted', 40),
+                       ('cov:slice_digits_i1_n2', 9), ('cov:slice_digits_i2_n2', 2), ('cov:slice_digits_i1_n3', 1),
+                       ('cov:slice_digits_i2_n3', 1), ('cov:slice_digits_i3_n3', 1),
+                       ('monitor:slice_oversized_n_one_answer', 1),
                        ('monitor:harness_run', 50), ('monitor:harness_result', 50), ('monitor:tally_crosscheck', 10),
                        ('monitor:kill_reported', 1), ('cov:result_TIMEOUT', 1), ('cov:job_bound_saturated', 1),
                        ('cov:all_good_run', 1), ('cov:timeout_kw_negative', 5), ('cov:timeout_kw_zero', 5),
@@ -323,6 +366,7 @@ def main() -> int:
                        ('monitor:rust_subtests_seen', 1)):
         chk.require(m, minimum)
     chk.require('runs_conclusive', int(0.6 * cfg['projects'] * cfg['per_project']))
+    # (the sweep runs come on top of projects x per_project)
     if chk.tier == 'thorough':
         chk.require('diag:shake_sleeps', 1)
     return chk.finish(
